@@ -1,0 +1,40 @@
+//go:build verif
+
+package bloomsearch
+
+// Test-only wrappers for the sizing (C26) correspondence. No logic: each one
+// calls the unexported code the engine itself runs.
+
+import (
+	"sort"
+
+	"github.com/bits-and-blooms/bloom/v3"
+)
+
+// VerifRowEntries indexes one marshaled row into fresh bloom entry sets
+// (bloomEntrySets.indexRow, the function ingest and merge run per row) and
+// returns the members of the three sets, sorted, with the sets' counts().
+func VerifRowEntries(rowBytes []byte, tokenizer ValueTokenizerFunc) (fields, tokens, fieldTokens []string, counts BloomEntryCounts) {
+	sets := newBloomEntrySets()
+	sets.indexRow(rowBytes, tokenizer)
+	return verifSortedKeys(sets.fields), verifSortedKeys(sets.tokens), verifSortedKeys(sets.fieldTokens), sets.counts()
+}
+
+// VerifBuildSizedBloomFilter is buildSizedBloomFilter over the given entries
+// (duplicates collapse in the set, as they do in an entry set).
+func VerifBuildSizedBloomFilter(entries []string, falsePositiveRate float64) *bloom.BloomFilter {
+	set := make(map[string]struct{}, len(entries))
+	for _, e := range entries {
+		set[e] = struct{}{}
+	}
+	return buildSizedBloomFilter(set, falsePositiveRate)
+}
+
+func verifSortedKeys(set map[string]struct{}) []string {
+	keys := make([]string, 0, len(set))
+	for k := range set {
+		keys = append(keys, k)
+	}
+	sort.Strings(keys)
+	return keys
+}
